@@ -140,6 +140,9 @@ func (hs *serverHandshakeStateGM) readClientHello() (isResume bool, err error) {
 		c.sendAlert(alertProtocolVersion)
 		return false, fmt.Errorf("tls: client offered an unsupported, maximum protocol version of %x", hs.clientHello.vers)
 	}
+	// This server speaks GM/T 0024 only: whatever higher version the client offers, the
+	// version in use is GMSSL 1.1 (the key schedule knows no other version on this path).
+	c.vers = VersionGMSSL
 	c.haveVers = true
 
 	hs.hello = new(serverHelloMsg)
